@@ -719,3 +719,121 @@ def replay_cross_solver_core(f=None):
     foreign = [c for c in core if not any(c is k for k in A.constraints)]
     return {"reproduced": bool(foreign), "text": f"A.add({a1!r}); A.add(x <s 3); B.add({a2!r}); B.add(x <s 2); A.unsat_core() = {core!r}; "
             f"not added to A: {foreign!r}"}
+
+
+THIN = ["_satisfiable", "_solution", "_eval", "_min", "_max"]
+
+
+def ob_thin_wrappers(which, tier="quick"):
+    """the thin query wrappers of BackendZ3 between the public Backend methods and the three functions above.  With z3_solver_sat,
+    _batch_eval and _extrema replaced by recording contracts:
+      _satisfiable   one check on the caller's solver with exactly the caller's extra constraints; its answer returned; a model is handed to
+                     model_callback iff the answer is True; the solver is not touched
+      _solution      one check with the caller's extras AND the equation expr == v (nothing else); its answer returned
+      _eval          _batch_eval([expr], n, extras, solver, model_callback) - same n, extras, solver - and the first components in order
+      _min / _max    _extrema(False / True, expr, extras, signed, solver, model_callback) - same signedness - its result unchanged"""
+    ns = _ns()
+    BZ = ns["BackendZ3"]
+    proxies.set_iw(12)
+
+    def body(c):
+        solver = GhostSolver()
+        solver.push()
+        solver.add(("caller", "frame"))
+        frames0 = [list(fr) for fr in solver.frames]
+        extras = tuple(("extra", i) for i in range(c.choose([True] * 3, "n-extra")))
+        cb_on = c.choose([True, True], "model-callback") == 1
+        models = []
+        cb = models.append if cb_on else None
+        e, v = Expr("e"), ("value", "v")
+        calls = []
+        b = object.__new__(BZ)
+        try:
+            object.__setattr__(b, "solve_count", 0)
+        except Exception:
+            pass
+
+        def sat_contract(s, extra, occasion):
+            ans = c.choose([True, True, True], "check-answer")
+            calls.append(("sat", s, tuple(extra), ans))
+            if ans == 2:
+                raise ClaripySolverInterruptError("timeout")
+            return ans == 0
+        ns.setdefault("__real_z3_solver_sat__", ns["z3_solver_sat"])
+        ns["z3_solver_sat"] = sat_contract
+        saved = {k: BZ.__dict__.get(k) for k in ("_generic_model", "_batch_eval", "_extrema")}
+        BZ._generic_model = lambda self, m: ("generic-model", m)
+        rows = [(("row", i), ("other", i)) for i in range(3)]
+
+        def batch_stub(self, exprs, n, extra_constraints=(), solver=None, model_callback=None):
+            k = c.choose([True] * 4, "n-rows")
+            calls.append(("batch", list(exprs), n, tuple(extra_constraints), solver, model_callback, k))
+            return [(rows[i][0],) for i in range(k)]
+
+        def extrema_stub(self, is_max, expr, extra_constraints, signed, solver, model_callback):
+            calls.append(("extrema", is_max, expr, tuple(extra_constraints), signed, solver, model_callback))
+            return ("optimum", is_max, signed)
+        if which == "_eval":
+            BZ._batch_eval = batch_stub
+        if which in ("_min", "_max"):
+            BZ._extrema = extrema_stub
+        raised = None
+        r = None
+        try:
+            try:
+                if which == "_satisfiable":
+                    r = b._satisfiable(extra_constraints=extras, solver=solver, model_callback=cb)
+                elif which == "_solution":
+                    r = b._solution(e, v, extra_constraints=extras, solver=solver, model_callback=cb)
+                elif which == "_eval":
+                    n = 1 + c.choose([True] * 3, "n")
+                    r = b._eval(e, n, extra_constraints=extras, solver=solver, model_callback=cb)
+                else:
+                    signed = c.choose([True, True], "signed") == 1
+                    r = getattr(b, which)(e, extra_constraints=extras, signed=signed, solver=solver, model_callback=cb)
+            except ClaripySolverInterruptError as ex:
+                raised = ex
+            except (PathEnd, Undecided):
+                raise
+            except Exception as ex:  # noqa
+                import traceback
+                c.fail(which + "/raises", f"{type(ex).__name__}: {ex} {traceback.format_exc()[-300:]}", kind="raises")
+                return "raised"
+        finally:
+            ns["z3_solver_sat"] = ns["__real_z3_solver_sat__"]
+            for k, f in saved.items():
+                if f is not None:
+                    setattr(BZ, k, f)
+        same = len(solver.frames) == len(frames0) and all(len(a) == len(b_) and all(x is y for x, y in zip(a, b_)) for a, b_ in zip(solver.frames, frames0))
+        c.check(which + "/solver-untouched", same, "the wrapper asserted something into (or popped something from) the caller's solver object")
+        if which in ("_satisfiable", "_solution"):
+            c.check(which + "/one-check", len(calls) == 1 and calls[0][0] == "sat" and calls[0][1] is solver, "not exactly one check on the caller's solver")
+            if len(calls) != 1:
+                return "bad"
+            got = list(calls[0][2])
+            want = list(extras) + ([("eq", "e", v)] if which == "_solution" else [])
+            c.check(which + "/asks-exactly-the-question", len(got) == len(want) and all(any(g == w_ or g is w_ for g in got) for w_ in want),
+                    f"the check was made under {got}, the question is {want}")
+            if raised is not None:
+                c.check(which + "/gave-up-only-if-the-check-did", calls[0][3] == 2, "ClaripySolverInterruptError although the check answered")
+                return "gave-up"
+            c.check(which + "/answer", (r is True and calls[0][3] == 0) or (r is False and calls[0][3] == 1), "the answer of the check was changed (or the check gave up and an answer was returned)")
+            c.check(which + "/model-only-when-sat", len(models) == (1 if (cb_on and r is True) else 0), "model_callback called without a model or not called with one")
+        elif which == "_eval":
+            c.check(which + "/one-batch", len(calls) == 1 and calls[0][0] == "batch", "not exactly one _batch_eval")
+            if len(calls) != 1:
+                return "bad"
+            _, exprs, n2, x2, s2, cb2, k = calls[0]
+            c.check(which + "/same-question", len(exprs) == 1 and exprs[0] is e and n2 == n and x2 == extras and s2 is solver and cb2 is cb,
+                    "_batch_eval was asked something else (expression, n, extra constraints, solver or callback differ)")
+            c.check(which + "/first-components-in-order", list(r) == [rows[i][0] for i in range(k)], "the values are not the first components of the rows, in order")
+        else:
+            c.check(which + "/one-extrema", len(calls) == 1 and calls[0][0] == "extrema", "not exactly one _extrema")
+            if len(calls) != 1:
+                return "bad"
+            _, is_max, e2, x2, sg2, s2, cb2 = calls[0]
+            c.check(which + "/same-question", is_max == (which == "_max") and e2 is e and x2 == extras and sg2 == signed and s2 is solver and cb2 is cb,
+                    "_extrema was asked something else (direction, expression, extra constraints, signedness, solver or callback differ)")
+            c.check(which + "/result-unchanged", r == ("optimum", which == "_max", signed), "the optimum was changed")
+        return which
+    return explore(body, {"budget_s": 120, "max_depth": 500, "max_failures": 3, "max_paths": 5000})
